@@ -70,6 +70,13 @@ def _feed(args):
         p = api.Project()
         target = p.new_module(cls)
     chained = (seed % 7 == 3)
+    if t == "MetaModule" and cname.startswith("user_defined_"):
+        # the target is a user-defined controller an API-built MetaModule exposes (declared 0..32768 like every user-defined
+        # controller), mapped onto a 0..32768 controller of an embedded module; the ranges are not re-derived
+        k_ = int(cname.rsplit("_", 1)[1])
+        ea = target.project.new_module(api.m.Amplifier)
+        target.mappings.values[k_ - 1].module, target.mappings.values[k_ - 1].controller = ea.index, 6        # fine_volume
+        target.user_defined_controllers = k_
     target.name = label
     mc = p.new_module(api.m.MultiCtl)
     ctl = cls.controllers[cname]
@@ -345,6 +352,9 @@ def run(ctx):
     for k, (t, name, c) in enumerate([x for x in ranged if x[2]["min"] != 0 and x[2]["kind"] == "range"]):
         for wmin, wmax in corners[:2]:
             jobs.append((t, name, rnd.choice([256, 256, 512, 1024]), 32768, wmin, wmax, None, False, ctx.seed + 1000 + 2 * k, False))
+    # targets that are user-defined controllers of a MetaModule (0..32768)
+    for k, (wmin, wmax) in enumerate(corners[:4]):
+        jobs.append(("MetaModule", "user_defined_%d" % (1 + k % 2), [256, 256, 1024, 100][k], 32768, wmin, wmax, None, False, 6 * (ctx.seed + k) + 4, False))
     # compact-range targets under windows wider than their span (outside the helper's domain: only the range clause is
     # judged - the library may refuse a delivery, it must never store a value outside the declared range)
     compact = [x for x in ranged if x[2]["kind"] == "compact"]
